@@ -25,6 +25,7 @@ func init() {
 	wrap("C17", extra9C17)
 	wrap("C19", extra9C19)
 	wrap("C10", extra9C10)
+	wrap("C07", extra9C07b)
 	wrap("C11", func(c *Ctx) {
 		rule := "C11-R21"
 		c.Rule(rule, "an idle runner is a runner nobody holds (same analysis as C01-R6): in useLoadedRunner a reference is taken exactly on the paths that hand the runner out and start the goroutine that gives the reference back — a path that counts the request and then gives up the hand-over (the client went away) leaves refCount at 1 for ever: the runner never looks idle to findRunnerToUnload, never expires, and at capacity the scheduler waits on it")
@@ -516,4 +517,91 @@ func extra9C10(c *Ctx) {
 		})
 	}
 	c.OK(rule, "fs/ggml table look-ups", "-", itoa(n)+" index expression(s) on package-level tables examined")
+}
+
+// ---------------------------------------------------------------------------------- C07 (the window is stored)
+
+func extra9C07b(c *Ctx) {
+	rule := "C07-R20"
+	c.Rule(rule, "a slot is resumed only if the whole window of the new position is stored: the sliding-window answer of Causal.CanResume depends on a count of the sequence's cells whose position lies in the new window (a counter advanced in the loop over the sequence's range under a test of the cell's pos) compared with the width of that window — comparing window starts alone assumes the stored positions are contiguous up to the newest one, which a sequence forked by CopyPrefix from a source whose window has moved on is not (fix in /repo, §10)")
+	f := c.Fn(rule, "kvcache", "Causal.CanResume")
+	if f == nil {
+		return
+	}
+	info := f.Info()
+	g := c.G(f)
+	fPos := c.P.LookupField("kvcache", "cacheCell", "pos")
+	posParam := paramAt(f, 1)
+	if fPos == nil || posParam == nil {
+		c.Undecided(rule, "anchor:cacheCell.pos / CanResume's position parameter", "-", "anchor lost")
+		return
+	}
+	// counters: locals incremented inside a loop, under a condition that reads a cell's pos
+	counters := map[types.Object]bool{}
+	ast.Inspect(f.Body, func(nd ast.Node) bool {
+		ifs, ok := nd.(*ast.IfStmt)
+		if !ok {
+			return true
+		}
+		readsPos := false
+		ast.Inspect(ifs.Cond, func(m ast.Node) bool {
+			if se, isSel := m.(*ast.SelectorExpr); isSel && core.FieldVar(info, se) == fPos {
+				readsPos = true
+			}
+			return true
+		})
+		if !readsPos || !core.UsesObj(info, ifs.Cond, posParam) {
+			return true
+		}
+		ast.Inspect(ifs.Body, func(m ast.Node) bool {
+			switch x := m.(type) {
+			case *ast.IncDecStmt:
+				if id, isId := x.X.(*ast.Ident); isId && x.Tok == token.INC {
+					counters[info.ObjectOf(id)] = true
+				}
+			case *ast.AssignStmt:
+				if x.Tok == token.ADD_ASSIGN && len(x.Lhs) == 1 {
+					if id, isId := x.Lhs[0].(*ast.Ident); isId {
+						counters[info.ObjectOf(id)] = true
+					}
+				}
+			}
+			return true
+		})
+		return true
+	})
+	n := 0
+	for _, ex := range g.Returns() {
+		if ex.Return == nil || len(ex.Return.Results) != 1 {
+			continue
+		}
+		// the sliding-window answer: the return whose expression mentions the position parameter
+		if !core.UsesObj(info, ex.Return.Results[0], posParam) {
+			uses := false
+			for _, x := range expand(g, ex.Return.Results[0], 2) {
+				if core.UsesObj(info, x, posParam) {
+					uses = true
+				}
+			}
+			if !uses {
+				continue
+			}
+		}
+		n++
+		ok := false
+		ast.Inspect(ex.Return.Results[0], func(m ast.Node) bool {
+			be, isB := m.(*ast.BinaryExpr)
+			if !isB || be.Op != token.EQL && be.Op != token.GEQ {
+				return true
+			}
+			for _, side := range []ast.Expr{be.X, be.Y} {
+				if id, isId := ast.Unparen(side).(*ast.Ident); isId && counters[info.Uses[id]] {
+					ok = true
+				}
+			}
+			return true
+		})
+		c.Check(rule, f.Key()+" sliding-window answer#"+itoa(n)+" counts the stored window", c.Pos(ex.Return), ok, "the answer does not depend on how many positions of the new window are stored for the sequence")
+	}
+	c.Expect(rule, "sliding-window answers of CanResume", n, 1)
 }
